@@ -299,4 +299,11 @@ class LinkedContext(ContextBase):
         self.linked_context[name] = value
 
     def create_child_context(self):
-        return type(self.linked_context)(self)
+        # the child is of the kind the linked context creates for itself:
+        # a plain context under a multi-context, its own class otherwise
+        linked = self.linked_context
+        while isinstance(linked, LinkedContext):
+            linked = linked.linked_context
+        if isinstance(linked, MultiContext):
+            return Context(self)
+        return type(linked)(self)
